@@ -89,6 +89,7 @@ def scn_sched(d: Draw, prof: dict, *, selections: float = 0.0, history: float = 
     spec = gen.gen_program(d, prof)
     dg = spec["dags"]["main"]
     ops: List[dict] = []
+    profile_all = d.bool(0.1)   # per-node profiling switched on (cfg.TAWAZI_PROFILE_ALL_NODES): nothing observable may change
     if config and d.bool(config):
         nodes = []
         cfg_idx = [i for i, s_ in enumerate(dg["stmts"]) if s_["k"] != "dag"]
@@ -127,7 +128,13 @@ def scn_sched(d: Draw, prof: dict, *, selections: float = 0.0, history: float = 
         if with_succ:
             i_node = d.pick(with_succ)
             o_node = d.pick(sorted(m for m in g["succ"][i_node] if m[0] == "s"))
-            ops.append(dict(op="compose", inst="E:main", inputs=[["id", i_node[1]]], outputs=[["id", o_node[1]]], single=True, **{"as": "cmp"}))
+            from .model import HistoryModel
+            hm = HistoryModel(base_scn(spec, []))
+
+            def al(n: Any) -> list:
+                # (a string alias that is also a tag would name the tagged node instead: use the node itself then)
+                return ["id", n[1]] if hm.alias_nodes(hm.inst["E:main"], ["id", n[1]]) == [n] else ["ref", n[1]]
+            ops.append(dict(op="compose", inst="E:main", inputs=[al(i_node)], outputs=[al(o_node)], single=True, **{"as": "cmp"}))
             if d.bool(0.6):
                 rt = spec["funcs"][dg["stmts"][i_node[1]]["fn"]]["ret"]
                 # the supplied value has the shape the node would have produced (consumers may index it)
@@ -141,16 +148,16 @@ def scn_sched(d: Draw, prof: dict, *, selections: float = 0.0, history: float = 
         ops.append(dict(op="exrun", ex="e0", args=draw_args(d, dg)))
     else:
         ops.append(dict(op="call", inst="E:main", args=draw_args(d, dg)))
-    return base_scn(spec, ops)
+    return base_scn(spec, ops, profile_all=profile_all)
 
 
 P_C02 = gen.profile(**{**gen.SCHED, "swarm": ("resources", "p_dep", "max_args", "p_seq", "p_prio"), "p_flag": 0.25, "w_nested": 1.2,
                        "max_depth": 2, "p_kwarg": 0.3, "p_index": 0.5, "p_unpack": 0.4,
                        "ret_types": [("int", 5), ("bool", 2), ("tuple2", 3), ("list3", 1), ("dict", 1), ("none", 1)]})
 P_C03 = gen.profile(**{**gen.SCHED, "swarm": ("resources", "p_dep", "max_args", "p_seq", "p_prio"), "w_nested": 1.2, "max_depth": 1,
-                       "p_nested_flag": 0.3, "p_tag": 0.25, "p_setup_in_nested": 1.0, "p_reuse": 0.5, "p_setup": 0.12, "p_flag": 0.3, "p_unpack": 0.5, "p_fn_unpack": 0.1,
+                       "p_nested_flag": 0.3, "p_tag": 0.25, "p_tag_is_id": 0.3, "p_setup_in_nested": 1.0, "p_reuse": 0.5, "p_setup": 0.12, "p_flag": 0.3, "p_unpack": 0.5, "p_fn_unpack": 0.1,
                        "ret_types": [("int", 4), ("bool", 2), ("tuple2", 3), ("dict", 1), ("none", 1)]})
-P_C04 = gen.profile(**{**gen.SCHED, "swarm": ("resources", "p_dep", "max_args", "p_seq", "p_prio"), "shape_bias": [("wide", 3), ("uniform", 1)], "mc": (1, 3), "p_flag": 0.05,
+P_C04 = gen.profile(**{**gen.SCHED, "swarm": ("resources", "p_dep", "max_args", "p_seq", "p_prio"), "shape_bias": [("wide", 3), ("uniform", 1)], "mc": (1, 3), "p_flag": 0.05, "p_setup": 0.15, "n_stmts": (1, 10),
                        "resources": [("thread", 4), ("async_thread", 3), ("main_thread", 2)]})
 P_C05 = gen.profile(**{**gen.SCHED, "p_seq": 0.35, "mc": (2, 5), "n_stmts": (3, 10)})
 P_C06 = gen.profile(**{**gen.SCHED, "prio": (-3, 5), "p_prio": 0.85, "p_flag": 0.1})
@@ -165,7 +172,16 @@ P_C09L = gen.profile(**{**gen.SCHED, "resources": [("async_thread", 6), ("thread
 
 
 def g_c02(d: Draw) -> dict:
-    return scn_sched(d, P_C02, compose=0.12, history=0.15)
+    scn = scn_sched(d, P_C02, compose=0.12, history=0.15)
+    if d.bool(0.2):
+        # one node function raises: nothing that depends on it may start (it has not returned)
+        from .model import HistoryModel
+        last = len(scn["clients"][0]) - 1
+        exp = HistoryModel(scn).run_all().get((0, last, 0))
+        paths = sorted(p for p, s_ in (exp.status.items() if exp is not None and exp.exec_paths is not None else []) if s_ == "exec")
+        if paths:
+            scn["faults"] = [dict(op=[0, last], path=[list(x) for x in d.pick(paths)], when=d.pick(["late", "early"]), kind="exc")]
+    return scn
 
 
 def g_c03(d: Draw) -> dict:
@@ -193,7 +209,12 @@ def inner_setup_first(d: Draw, scn: dict) -> dict:
 
 
 def g_c04(d: Draw) -> dict:
-    return scn_sched(d, P_C04, config=0.35, history=0.3)
+    scn = scn_sched(d, P_C04, config=0.35, history=0.3, selections=0.3)
+    if scn["program"]["dags"]["main"]["has_setup"] and d.bool(0.6):
+        # an explicit setup() is an execution like any other: same limit, same threads
+        ops = scn["clients"][0]
+        ops.insert(len(ops) - 1 if ops[-1]["op"] == "call" else 0, dict(op="setup", inst="E:main"))
+    return scn
 
 
 def g_c05(d: Draw) -> dict:
@@ -265,7 +286,7 @@ def reg(p: Prop) -> None:
     PROPS[p.pid] = p
 
 
-reg(Prop("C02", g_c02, {"order": "C02.a", "args": "C02.b"}))
+reg(Prop("C02", g_c02, {"order": "C02.a", "dependent_of_failed": "C02.a", "args": "C02.b"}))
 reg(Prop("C03", g_c03, {"count_missing": "C03.a", "count_dup": "C03.a", "count_extra": "C03.b", "deact_ran": "C03.b"}))
 reg(Prop("C04", g_c04, {"maxconc": "C04.a", "thread_pool": "C04.b", "thread_main": "C04.c"}))
 reg(Prop("C05", g_c05, {"seq_enter": "C05.a", "seq_during": "C05.b"}))
@@ -461,7 +482,7 @@ reg(Prop("C14", g_c14, {"noraise": "C14.a", "fail_identity": "C14.b", "dependent
 
 
 # ----------------------------------------------------------------------------- C07 compound priority
-P_C07 = gen.profile(**{**gen.SCHED, "prio": (-3, 6), "p_prio": 0.9, "p_flag": 0.06, "p_dep": 0.9, "max_args": 3, "n_stmts": (3, 10),
+P_C07 = gen.profile(**{**gen.SCHED, "prio": (-3, 6), "p_prio": 0.9, "p_tag": 0.3, "p_reuse": 0.5, "p_flag": 0.06, "p_dep": 0.9, "max_args": 3, "n_stmts": (3, 10),
                        "shape_bias": [("uniform", 2), ("recent", 2), ("early", 2)], "p_seq": 0.1, "w_nested": 1.0, "max_depth": 1,
                        "ret_shapes": [("tuple", 1)], "all_return": False, "n_params": (0, 2), "p_async": 0.2})
 
@@ -477,6 +498,12 @@ def g_c07(d: Draw) -> dict:
         calls = [i for i, s in enumerate(dg["stmts"]) if s["k"] != "dag"]
         for idx in d.sample(calls, d.int(1, min(3, len(calls)))) if calls else []:
             nodes.append([["id", idx], {"priority": d.int(-3, 6)}])
+        tags = sorted({t for f in spec["funcs"].values() for t in ([f["tag"]] if isinstance(f["tag"], str) else (f["tag"] or []))})
+        if tags and flat and d.bool(0.5):
+            # (flat programs only: a tag also addresses the spliced nodes of nested DAGs, which the model does not follow)
+            # one entry addressed by a tag: every node carrying the tag gets the value (instead of the id entries: an id and a
+            # tag entry for the same node are refused)
+            nodes = [[["tag", d.pick(tags)], {"priority": d.int(-3, 6)}]]
         if nodes:
             ops.append(dict(op="config", inst="E:main", cfg={"nodes": nodes}, how=d.pick(["dict", "yaml", "json"])))
             ops.append(dict(op="cprio", inst="E:main"))
@@ -789,8 +816,24 @@ def g_c15(d: Draw) -> dict:
     calls_idx = [i for i, s in enumerate(dg["stmts"]) if s["k"] == "call"]
     for _ in range(n):
         mode = d.weighted([("call", 4), ("failcall", 3), ("exec", 3), ("exec2", 3), ("execfail2", 3), ("config", 1), ("failbuild", 1),
-                           ("compose", 1), ("cancel", 1)])
+                           ("compose", 1), ("cancel", 1), ("exgather", 2)])
         j = len(ops)
+        if mode == "exgather":
+            # ONE executor object awaited several times at once (optionally an executor that starts from a cache file): one
+            # await is served, the others are refused or run the whole selection themselves
+            if dg["is_async"]:
+                sel = draw_selection(d, spec, "main", p_R=0.1, p_X=0.2, p_T=0.4)
+                kw: Dict[str, Any] = {}
+                if d.bool(0.5):
+                    # (a partial run is cached, so that the restarted executor still has argument-dependent work to do)
+                    ops.append(dict(op="executor", inst="E:main", ex=f"w{j}", cache_in=f"c{j}.pkl",
+                                    sel=draw_selection(d, spec, "main", p_R=0.0, p_X=0.3, p_T=0.8, p_empty=0.0)))
+                    ops.append(dict(op="exrun", ex=f"w{j}", args=draw_args(d, dg, 0.0)))
+                    kw["from_cache"] = f"c{j}.pkl"
+                ops.append(dict(op="executor", inst="E:main", sel=sel, ex=f"g{j}", **kw))
+                ops.append(dict(op="gather", calls=[dict(ex=f"g{j}", args=draw_args(d, dg, 0.0)) for _ in range(d.int(2, 3))], ticker=False))
+                ops.append(dict(op="results_keys", inst="E:main"))
+            continue
         if mode == "cancel":
             if dg["is_async"]:
                 ops.append(dict(op="gather", calls=[dict(inst="E:main", args=draw_args(d, dg))], ticker=False,
@@ -896,6 +939,7 @@ def g_c16(d: Draw) -> dict:
                             ps[k_] = "peer"
     scn = dict(program=spec, refbuild=[dict(dags=spec["order"])], prebuild=[dict(dags=spec["order"])], clients=clients)
     scn["line_points"] = sorted(d.sample(list(range(1, 1200)), d.int(0, 3)))
+    scn["same_thread_names"] = d.bool(0.3)   # thread names are not identities: two pools may each own a "worker_0"
     return scn
 
 
